@@ -87,6 +87,13 @@ impl Model {
                 
                 // Return a dummy VarId to keep the API consistent
                 // The solve() method will detect memory_limit_exceeded and return proper error
+                // The dummy has to name an existing variable (posting calls read its bounds):
+                // a model without variables gets a singleton placeholder
+                if self.vars.count() == 0 {
+                    self.props_mut().on_new_var();
+                    let step_size = self.float_step_size();
+                    return self.vars_mut().new_var_with_bounds_and_step(Val::ValI(0), Val::ValI(0), step_size);
+                }
                 VarId::from_index(0)
             }
         }
